@@ -45,7 +45,7 @@ CHECKS = {
     "C18": rust("model_checking", [("std", "c18", [])]),
     "C12": gen("c12"),
     "C13": rust("model_checking", [("std", "c13", []), ("nostd", "c13", [])], [("std", "c13", []), ("nostd", "c13", [])]),
-    "C11": rust("fault_enumeration", [("std", "c11", [])]),
+    "C11": rust("fault_enumeration", [("std", "c11", []), ("stdcs", "c11", [])]),
     "C03": rust("model_checking", [("std", "c03", []), ("nostd", "c03", [])], [("std", "c03", []), ("nostd", "c03", [])]),
 }
 
